@@ -361,6 +361,7 @@ package tq
 //@   props C02 C09 C06 C03
 //@   at call tq.NewCustomAdapterUploadRequest:1 assert @C03 arg0__ == t.Oid && arg1__ == t.Size && arg2__ == t.Path && arg3__ == rel
 //@   at call tq.verifyUpload:1 assert @C03 arg2__ == t && resp.Oid == t.Oid && resp.Error == nil
+//@   at call (*tq.customAdapter).sendMessage:1 assert arg1__ == customCtx && req != nil && req.Oid == t.Oid && req.Size == t.Size && (a.direction == Upload ==> req.Event == "upload" && req.Path == t.Path) && (a.direction != Upload ==> req.Event == "download")
 //@   loop 1 invariant @C03 complete && a.direction == Upload ==> verified(t)
 //@   ensures @C03 result == nil && old(a.direction) == Upload ==> verified(t)
 //@   ensures @C06 fncalls() <= old(fncalls()) + 1
@@ -395,13 +396,13 @@ package tq
 //@   props C02 C09
 //@   noeffect
 //@ func NewCustomAdapterUploadRequest
-//@   assumed
-//@   props C02 C09
+//@   props C02 C09 C03
 //@   modifies fresh
+//@   ensures result != nil && isfresh(result) && result.Event == "upload" && result.Oid == oid && result.Size == size && result.Path == path && result.Action == action
 //@ func NewCustomAdapterDownloadRequest
-//@   assumed
-//@   props C02 C09
+//@   props C02 C09 C03
 //@   modifies fresh
+//@   ensures result != nil && isfresh(result) && result.Event == "download" && result.Oid == oid && result.Size == size && result.Path == "" && result.Action == action
 
 // C03: local completeness check of uploads.  Of the transfers the server asks
 // for, exactly those whose object file exists with the recorded size are
